@@ -153,7 +153,9 @@ def configs(draw, tier="quick", variants=VARIANTS, classes=KCLASSES, geo_kinds=(
     cfg = {"variant": variant, "geo": kind}
     dimf = fdim
     if variant == "universal":
-        cfg["drift"] = draw(st.one_of(st.sampled_from([1, 1, 2] if dimf < 3 else [1]), st.lists(st.sampled_from(sorted(DRIFT_FUNCS)), min_size=1, max_size=2, unique=True)))
+        # functionally distinct drift functions only ('last' equals 'y' in 2-D, 'xy' equals 'y' = x^2 in 1-D)
+        names = ["x", "y", "sinx"] if dimf == 1 else (["x", "y", "xy", "sinx"] if dimf == 2 else ["x", "y", "xy", "sinx", "last"])
+        cfg["drift"] = draw(st.one_of(st.sampled_from([1, 1, 2] if dimf < 3 else [1]), st.lists(st.sampled_from(names), min_size=1, max_size=2, unique=True)))
     elif variant == "extdrift":
         cfg["n_ext"] = draw(st.sampled_from([1, 1, 2]))
     elif variant == "base":
@@ -383,6 +385,19 @@ def has_functional_drift(cfg):
 def lon_wrapped(pos):
     lon = np.asarray(pos, dtype=float)[1]
     return bool(np.any((lon <= -180.0) | (lon > 180.0)))
+
+
+def spec_from_model(spec, m):
+    """Spec describing the model as it is now (after in-place changes or a variogram fit)."""
+    s2 = dict(spec)
+    s2["var"] = float(m.var)
+    s2["len_scale"] = float(m.len_scale)
+    s2["nugget"] = float(m.nugget)
+    s2["anis"] = [float(a) for a in m.anis]
+    s2["angles"] = [float(a) for a in m.angles]
+    s2["rescale"] = float(m.rescale)
+    s2["opt"] = {k: float(getattr(m, k)) for k in m.opt_arg}
+    return s2
 
 
 def tol(case, cnd, scale):
